@@ -12,8 +12,13 @@ def oracle(case, impl_lines, model_lines):
     also come from a participant or a completed query whose stamp, inherited from a memo of the same
     revision, is already at MAX_ITERATIONS); no read of the diverge profile ends in anything
     but a value, too-many, a propagated panic (poisoned head of the same revision), or the crate's
-    own backdate assertion.  The model's ghost count of body executions per read stays within
-    MAX_ITERATIONS + 1 (model side; implementation == model on events)."""
+    own backdate assertion.  The model's ghost count of executions of any one body per read stays
+    within (MAX_ITERATIONS + 1) x number of nodes (model side; implementation == model on events):
+    the proved bound C15_bounded_partial is per fixpoint loop of ONE execute of a head; an inner
+    node of a nested cycle runs once per iteration of every enclosing loop, and a head can be
+    executed again by an outer iteration, so the per-read count is bounded by the product, not by
+    MAX_ITERATIONS + 1 (the first version of this oracle demanded the latter and raised a false
+    alarm on a nested case with 402 executions)."""
     a = ce.split_lines(impl_lines)
     b = ce.split_lines(model_lines)
     for i in sorted(a["R"]):
@@ -31,7 +36,8 @@ def oracle(case, impl_lines, model_lines):
         r = a["R"][i]
         if "(spec diverge)" in case and r.startswith("panic") and r not in ("panic 4", "panic 7", "panic 3", "panic 1"):
             return dict(level="oracle", step=i, why=f"unexpected outcome {r}")
-        if b["B"].get(i, 0) > MAX_ITERATIONS + 1:
+        nnodes = max(1, case.count("(node "))
+        if b["B"].get(i, 0) > (MAX_ITERATIONS + 1) * nnodes:
             return dict(level="oracle", step=i, why=f"model: a body ran {b['B'][i]} times in one read")
     return None
 
